@@ -350,6 +350,31 @@ class ProgGen:
                 body.append({"t": "ctrl", "k": self.r.choice(["return", "end", "hold"])})
             elif self.cfg.max_depth > 1:
                 body.append(self.if_(self.cfg.max_depth - 1, False, False))
+        if self.r.random() < 0.5:
+            # a ladder of tests without any Jump between them, followed by their targets in some order
+            # ('Branch a -> T; Branch b -> E; T: ...; E: ...'): hand-written / other compilers' layout of if-or-not chains
+            self.hit("goto_ladder")
+            k = self.r.randint(2, 3)
+            ls = [self.new_label() for _ in range(k)]
+            ladder: list[dict] = []
+            for nm in ls:
+                self.jumps.append(nm)
+                ladder.append({"t": "if", "branches": [{"not": self.r.random() < 0.2, "headers": [self.header()], "body": [{"t": "jump", "name": nm}]}], "else": None})
+            order = ls[:]
+            self.r.shuffle(order)
+            if self.r.random() < 0.4:
+                ladder.append(self.plain())
+                if self.r.random() < 0.5:
+                    ladder.append({"t": "jump", "name": self.r.choice(ls)})
+            for nm in order:
+                ladder.append({"t": "label", "name": nm})
+                self.label_pool.append(nm)
+                if self.r.random() < 0.8:
+                    ladder.append(self.plain())
+                if self.r.random() < 0.2:
+                    ladder.append({"t": "ctrl", "k": self.r.choice(["return", "end", "hold"])})
+            at = self.r.randint(0, len(body))
+            body[at:at] = ladder
         for nm in labels:
             # half of the labels directly behind a (conditional) jump: tests that aim just past the next test / jump
             spots = [i + 1 for i, s in enumerate(body) if s["t"] in ("if", "jump")]
